@@ -116,7 +116,7 @@ def correspondence(ctx):
     skipped = 0
     def take(c, obs, origin):
         nonlocal skipped
-        if c.get("malformed"):
+        if c.get("malformed") or c.get("large_x"):
             return
         if obs.get("exn_type") == "RuntimeError":
             skipped += 1
@@ -296,7 +296,7 @@ def check_oracle(case, obs=None):
     obs = obs or fc.run_case(case, observe_result=True)
     if case.get("malformed"):
         return None           # rejected requests are C06's business; here they only sit between the fits of a history
-    if obs.get("exn_type") == "RuntimeError":
+    if obs.get("exn_type") == "RuntimeError" or fc.numerically_lost(case, obs):
         return None
     if obs["exn"] is not None:
         part = obs.get("partial")
